@@ -3,6 +3,8 @@ package checks
 import (
 	"time"
 
+	"github.com/ProtonMail/gluon/db"
+
 	"verif/engine/explore"
 	"verif/scen/mbox"
 )
@@ -48,7 +50,7 @@ func C04(tier string) int {
 	if tier == "thorough" {
 		d, budget = 5, 25*time.Minute
 	}
-	return RunE1(E1Spec{
+	code := RunE1(E1Spec{
 		Prop: "C04", Level: "model_checking", Budget: budget,
 		Families: c04Families(d),
 		Assume: []string{
@@ -56,6 +58,20 @@ func C04(tier string) int {
 			"the oracle state (UID -> message map per mailbox name and UIDVALIDITY, highest UID ever assigned, last UIDNEXT, UIDVALIDITY history per name) is carried along every path and is part of the canonical state",
 		},
 	})
+	// COPYUID across the statement-batching limit
+	L := db.ChunkLimit
+	var cases []any
+	for _, op := range []string{"copyuid-other", "moveuid-other"} {
+		for _, n := range []int{2, L, L + 1, 2*L + 1} {
+			cases = append(cases, mbox.GridCase{N: n, Op: op})
+		}
+	}
+	c2 := RunEnumMerge("C04", "copyuid_grid", EnumSpec{Prop: "C04", Level: "model_checking", Call: "c03grid", Cases: cases, Chunk: 1,
+		Rule: "COPY / UID MOVE 1:* of N messages for N on both sides of the statement-batching limit: every (source UID, destination UID) pair of the COPYUID response must name the same message"})
+	if c2 > code {
+		code = c2
+	}
+	return code
 }
 
 func init() {
